@@ -44,7 +44,55 @@ def requests(ctx):
               [65534, 65535, 65536, 65537, 131069, 131070, 131071, 131072, 200000]):
         rq.append(storegen.gen_rollover(rng, n, every=rng.choice([1, 50])))
     rq.append(storegen.gen_rollover(rng, 70000, splits=(30000, 65535, 65536)))
+    # malformed stream: outside the property's quantifier (spec `-`), model and code must still agree (panic or not)
+    for _ in range(400 if quick else 4000):
+        rq.append(malform(rng, storegen.gen_history(rng, nsteps=rng.choice([1, 2, 4]), split_p=0.2)))
     return rq
+
+
+def malform(rng, line):
+    head, types, ops = line.split(" ", 2)
+    ol = ops.split(";") if ops != "-" else []
+    nsig = len(types.split(",")) if types != "-" else 0
+    kind = rng.choice(["notime", "badid", "badchar", "toolong", "badlead", "splitfirst", "wrongtype", "empty"])
+    vals = [k for k, o in enumerate(ol) if o[0] == "v"]
+    if kind == "notime":
+        ol = [o for o in ol if o[0] != "t"][:3] or ["v0:31"]
+    elif kind == "badid" and vals:
+        k = rng.choice(vals)
+        f = ol[k][1:].split(":")
+        ol[k] = "v" + ":".join([str(nsig + rng.randint(0, 2))] + f[1:])
+    elif kind == "badchar" and vals:
+        k = rng.choice(vals)
+        f = ol[k][1:].split(":")
+        f[1] = f[1][:2] + "71" + f[1][2:]
+        if len(f) == 3:
+            f[2] = "-"          # the external f64 parser rejects the corrupted text
+        ol[k] = "v" + ":".join(f)
+    elif kind == "toolong" and vals:
+        k = rng.choice(vals)
+        f = ol[k][1:].split(":")
+        if len(f) == 2:
+            f[1] = f[1] + "30" * 400
+        ol[k] = "v" + ":".join(f)
+    elif kind == "badlead" and vals:
+        k = rng.choice(vals)
+        f = ol[k][1:].split(":")
+        f[1] = "62" + rng.choice(["75", "2d", "68", "31"])
+        ol[k] = "v" + ":".join(f)
+    elif kind == "splitfirst":
+        ol = ["a"] + ol
+    elif kind == "wrongtype" and vals:
+        k = rng.choice(vals)
+        f = ol[k][1:].split(":")
+        f[1] = rng.choice(["7268656c6c6f", "73303031", "31", "623031"])
+        ol[k] = "v" + ":".join(f[:2])
+    elif kind == "empty" and vals:
+        k = rng.choice(vals)
+        f = ol[k][1:].split(":")
+        f[1] = rng.choice(["62", "-", "42"])
+        ol[k] = "v" + ":".join(f[:2])
+    return f"{head} {types} {';'.join(ol) if ol else '-'}"
 
 
 def nontrivial(rq, reply):
